@@ -100,6 +100,8 @@ def _case(draw):
             'exception': draw(st.booleans()) and fc != 8, 'uid': draw(st.integers(1, 247)),
             # the judged transaction may follow one that the unit did not answer at all (the client remembers such units)
             'after_silence': draw(st.sampled_from([False, False, True])),
+            # the judged reply may come on a retransmission (retry_on_empty): the sizing of the second attempt is judged
+            'unanswered_first': draw(st.sampled_from([0, 0, 0, 1, 2])),
             'serial': draw(transports.serial_options())}
 
 
@@ -175,10 +177,14 @@ class ServerPeer(transports.Peer):
         self.exception = exception
         self.replies = []
         self.silent = False
+        self.skip = 0          # number of transmissions that stay unanswered before the peer answers (retries)
 
     def on_write(self, conn, data):
         out = []
         if self.silent:
+            return []
+        if self.skip > 0:
+            self.skip -= 1
             return []
 
         def cb(req):
@@ -208,7 +214,11 @@ def _run_xfer(case):
         return Outcome([], labels + ['excluded-binary-delimiter'], False)
     with transports.World(peer) as w:
         try:
-            client = ModbusSerialClient(method=framing, port='/dev/null', timeout=1, **transports.serial_kwargs(w, case.get('serial')))
+            nskip = case.get('unanswered_first') or 0
+            rkw = {'retries': 3, 'retry_on_empty': True, 'backoff': 0.1} if nskip else {}
+            client = ModbusSerialClient(method=framing, port='/dev/null', timeout=1, **dict(rkw, **transports.serial_kwargs(w, case.get('serial'))))
+            if nskip:
+                labels.append('reply-on-retransmission')
             if case.get('serial'):
                 labels.append('serial-opts:' + ','.join('%s=%s' % kv for kv in sorted(case['serial'].items())))
             if case.get('after_silence'):
@@ -219,6 +229,7 @@ def _run_xfer(case):
                 peer.written[:] = []
                 w.clock.sleep(1.0)
             req = kinds.build(kind, f, unit=case['uid'])
+            peer.skip = nskip
             result = client.execute(req)
         except transports.StepBudgetExceeded as e:
             return Outcome([Disc('no-termination', '%s %s: %s' % (framing, kind, e))], labels, True)
